@@ -293,7 +293,7 @@ pub fn check_convert(k: &KyteaSpec, texts: &[Vec<char>]) -> Option<(String, Stri
         } else {
             "header"
         };
-        return Some((format!("model-{kind}"), format!("converted model {got:?} differs from the file's content {want:?}")));
+        return Some((format!("model-{kind}"), format!("converted model {got:?} differs from the file's content {want:?}").chars().take(1500).collect()));
     }
     // it segments as those weights dictate
     let pred = match guard(|| Predictor::new(model, false)) {
@@ -561,6 +561,30 @@ pub fn specs(tier: Tier) -> Vec<(String, KyteaSpec)> {
                 }
             }
         }
+        // LONG dictionary words (lengths around 255/256, 512 and 1 KiB): the length bucket is min(length, dict_n)
+        for len in [254usize, 255, 256, 257, 258, 259, 260, 511, 512, 513, 1024, 1025] {
+            for dict_n in [1u8, 2, 4] {
+                let long: String = (0..len).map(|i| ['a', 'b', 'あ'][(i + i / 5) % 3]).collect();
+                let dv: Vec<i16> = (0..3 * dict_n as usize * 2).map(|q| (mix(4100 + q as u64 + len as u64) % 2001) as i16 - 1000).collect();
+                let k = KyteaSpec {
+                    char_map: map.clone(),
+                    char_w: 2,
+                    type_w: 2,
+                    dict_n,
+                    n_tags: 0,
+                    bias: 1,
+                    char_ngrams: vec![("a".into(), entry(1, 2, 0, 7))],
+                    type_ngrams: vec![("R".into(), entry(1, 2, 0, 8))],
+                    n_dicts: 2,
+                    words: vec![(long, 1 + (len % 3) as u8), ("ab".into(), 3)],
+                    dict_vec: dv,
+                    extra_entry_weights: 0,
+                    inherit_outputs: len % 2 == 0,
+                    flags_off: false,
+                };
+                out.push((format!("dict map={mi} long word of {len} characters dict_n={dict_n}"), k));
+            }
+        }
     }
     out
 }
@@ -600,6 +624,10 @@ pub fn run(tier: Tier) -> ! {
         chk.nontrivial(1);
         if let Some((kd, what)) = check_convert(k, &texts) {
             chk.violation(format!("{kd} {name}"), what, json!({"kind": "convert", "name": name, "spec": k}));
+        }
+        // the long-word files take part in the delivery and truncation sweeps once per word length only (cost)
+        if name.contains("long word") && !name.ends_with("dict_n=2") {
+            return;
         }
         {
             let bytes = write_kytea(k);
@@ -652,7 +680,7 @@ pub fn run(tier: Tier) -> ! {
     // their byte count swept so that EVERY byte of the tries / dictionary part of one multi-dictionary file
     // (failure-link outputs included) lands on the 8192 boundary once
     {
-        let (bname, base) = sp.iter().rev().find(|(n, k)| n.starts_with("dict") && k.n_dicts >= 2 && k.words.len() >= 2 && k.inherit_outputs).unwrap_or_else(|| machinery_error("no multi-dictionary spec"));
+        let (bname, base) = sp.iter().rev().find(|(n, k)| n.starts_with("dict") && !n.contains("long word") && k.n_dicts >= 2 && k.words.len() >= 2 && k.inherit_outputs).unwrap_or_else(|| machinery_error("no multi-dictionary spec"));
         let b0 = write_kytea(base);
         let map_bytes: usize = base.char_map.iter().map(|c| c.len_utf8()).sum();
         let tail = b0.len() - (41 + map_bytes);
